@@ -1,0 +1,21 @@
+//go:build verif
+// +build verif
+
+package onet
+
+import bbolt "go.etcd.io/bbolt"
+
+// Accessor for the verification harness (property C10); compiled only with
+// the build tag "verif".
+
+// VerifC10DbState returns the path of the server's database file and whether
+// the server's handle on the database is still open.
+func (c *Server) VerifC10DbState() (path string, open bool) {
+	sm := c.serviceManager
+	path = sm.dbFileName()
+	if sm.db == nil {
+		return path, false
+	}
+	err := sm.db.View(func(*bbolt.Tx) error { return nil })
+	return path, err == nil
+}
